@@ -57,6 +57,9 @@ impl MultiProgress {
         let mut state = self.state.write().unwrap();
         state.draw_target.disconnect(Instant::now());
         state.draw_target = target;
+        // The static lines of finished bars stay behind on the old target: none of them are
+        // above the region that is going to be drawn on the new one.
+        state.zombie_lines_count = VisualLines::default();
     }
 
     /// Set whether we should try to move the cursor when possible instead of clearing lines.
